@@ -45,7 +45,7 @@ LEVEL = {
             "field types of the incremental class are taken from the one-shot class."),
     "C19": ("Hexdump.tla states Lossless / Cosmetic and pack/unpack/swap on limb integers; MC_Hexdump is the generator loop of utils.py as a state machine (i, j, remaining, active, palette) for all data lengths 0..34 x palettes of <= 3 entries with lengths {0,1,15,16,17}; real output (string and generator form, prefixes, offsets, palettes; dumpstruct in both forms; pack/unpack/p8..u64/swap incl. values that do not fit) is tokenised and judged by Trace_Utils.",
             "dumpstruct(T, data) is driven with len(data) = len(T) only."),
-    "C20": ("Trace_Stub computes StubDecls from the abstract declaration list (classes with bases, folded fields with hint trees that name the field's type, enum members, aliases resolved through TypeTable, constants, nothing else at top level) and compares it with the ast projection of the real stub text; syntactic validity is the `valid` flag of that projection. The three shapes that yield invalid Python are finding F15 (listed).",
+    "C20": ("Trace_Stub computes StubDecls from the abstract declaration list (classes with bases, folded fields with hint trees that name the field's type, enum members, aliases resolved through TypeTable, constants, nothing else at top level) and compares it with the ast projection of the real stub text; syntactic validity is the `valid` flag of that projection. Names of array / pointer types (typedef T a[4]; typedef T *p; aliases of them) are expected as aliases of the generic hint (F62). A field named like a Python keyword still yields invalid Python: finding F15 (listed).",
             "syntactic validity is decided by ast.parse in the projection; hints are compared up to module prefixes and generated anonymous names."),
 }
 
